@@ -86,6 +86,30 @@ def make_inputs(rng, n):
             if level == 'predicate':
                 toks = ['{'] + toks + ['}']
         origin = 'valid'
+        if rng.random() < 0.05:
+            # texts that differ only in white space *inside a string literal*, or by an exotic blank next to an
+            # ordinary one: different inputs (different value / ill-formed) that a careless normalisation would merge
+            group = []
+            for inner in rng.sample(('a b', 'a  b', 'a\tb', 'a\xa0b', 'a b ', ' a b', 'ab'), 3):
+                lit = '"' + inner + '"'
+                if level in ('specification', 'property'):
+                    body = toks
+                    while body and body[0] == '#':
+                        body = body[4:]
+                    tk = ['#', gen.pick(rng, ('title', 'description')), ':', lit] + body
+                elif level == 'predicate':
+                    tk = toks[:-1] + ['and', 'qname', '=', lit, '}']
+                else:
+                    tk = toks + ['and', 'qname', '=', lit]
+                group.append(A.layout(tk))
+            base = group[0]
+            if ' ' in base:
+                j = base.index(' ')
+                group.append(base[:j] + gen.pick(rng, ('\xa0', '\u2003', '\x0b', '\x85', '\u3000')) + base[j:])
+                group.append(base + gen.pick(rng, ('\xa0', '\u2028', '\x1f')))
+            for g in group:
+                out.append((level, g, len(g.split()), 'twin', 'whitespace-twin'))
+            continue
         if level in ('specification', 'property') and rng.random() < 0.06:
             # a repeated annotation key, with and without an id before it
             key = gen.pick(rng, ('title', 'description', 'id'))
